@@ -25,6 +25,7 @@ Normalising rewrites (each semantics-preserving under the stated side condition)
   N3  if not c: A else: B   ->  if c: B else: A
   N4  K + e  /  K * e       ->  e + K / e * K    K a numeric constant (IEEE + and * commute exactly)
   N5  t = <call>; return t  ->  return <call>    t occurs nowhere else in the unit
+  N0  docstrings and annotations are left out of the normal form (the analysed function keeps its own)
 """
 
 from __future__ import annotations
@@ -215,8 +216,28 @@ class _Normaliser(ast.NodeTransformer):
                 setattr(node, fld, self._merge_temp_returns(b))
         return node
 
+    def visit_AnnAssign(self, n):
+        n = self.generic_visit(n)
+        if n.value is not None and isinstance(n.target, ast.Name) and n.simple:
+            a = ast.copy_location(ast.Assign(targets=[n.target], value=n.value), n)
+            a._v = ["ann", ast.unparse(n.annotation)]
+            return self._after_assign(a)
+        n.annotation = ast.Constant(value=None)  # attribute / subscript target, or no value: the annotation is dropped
+        return n
+
+    def _after_assign(self, n):
+        """N1 on a plain assignment; an annotated one keeps its annotation variant"""
+        if isinstance(n.value, ast.BinOp) and isinstance(n.value.left, ast.Name) and n.value.left.id == n.targets[0].id and n.targets[0].id in self.scalars and self._scalar_operand(n.value.right) and not isinstance(getattr(n, "_v", 0), list):
+            a = ast.copy_location(ast.AugAssign(target=n.targets[0], op=n.value.op, value=n.value.right), n)
+            a._v = 1
+            return a
+        return n
+
     def visit_Assign(self, n):
         n = self.generic_visit(n)
+        if len(n.targets) == 1 and isinstance(n.targets[0], ast.Name) and not (isinstance(n.value, ast.BinOp) and isinstance(n.value.left, ast.Name) and n.value.left.id == n.targets[0].id):
+            n._v = 0  # could carry an annotation
+            return n
         if len(n.targets) == 1 and isinstance(n.targets[0], ast.Name) and isinstance(n.value, ast.BinOp) and isinstance(n.value.left, ast.Name) and n.value.left.id == n.targets[0].id and n.targets[0].id in self.scalars and self._scalar_operand(n.value.right):
             a = ast.copy_location(ast.AugAssign(target=n.targets[0], op=n.value.op, value=n.value.right), n)
             a._v = 1
@@ -301,6 +322,15 @@ def normal_form(fn: ast.AST):
     for x in ast.walk(nf):
         if hasattr(x, "_v"):
             del x._v
+    # N0: docstrings and annotations carry no behaviour: they are not part of the normal form
+    for x in ast.walk(nf):
+        if isinstance(x, (ast.FunctionDef, ast.AsyncFunctionDef)):
+            if x.body and isinstance(x.body[0], ast.Expr) and isinstance(x.body[0].value, ast.Constant) and isinstance(x.body[0].value.value, str) and len(x.body) > 1:
+                x.body = x.body[1:]
+            x.returns = None
+        elif isinstance(x, ast.arg):
+            x.annotation = None
+
     nz = _Normaliser(nf)
     nf = nz.visit(nf)
     ast.fix_missing_locations(nf)
@@ -341,6 +371,13 @@ class _Restorer(ast.NodeTransformer):
             return [a, r]
         return n
 
+    def visit_Assign(self, n):
+        v = self.want.get(id(n), 0)
+        n = self.generic_visit(n)
+        if isinstance(v, list) and v and v[0] == "ann" and len(n.targets) == 1 and isinstance(n.targets[0], ast.Name):
+            return ast.copy_location(ast.AnnAssign(target=n.targets[0], annotation=ast.parse(v[1], mode="eval").body, value=n.value, simple=1), n)
+        return n
+
     def visit_AugAssign(self, n):
         v = self.want.get(id(n), 0)
         n = self.generic_visit(n)
@@ -372,6 +409,10 @@ class _Restorer(ast.NodeTransformer):
 
 def _raw(node: ast.AST) -> str:
     return hashlib.sha1(ast.dump(node, annotate_fields=False, include_attributes=False).encode()).hexdigest()
+
+
+def _all_args(a: ast.arguments) -> list:
+    return a.posonlyargs + a.args + ([a.vararg] if a.vararg else []) + a.kwonlyargs + ([a.kwarg] if a.kwarg else [])
 
 
 def skeleton(fn: ast.AST):
@@ -453,10 +494,11 @@ def derename(rel: str, tree: ast.Module) -> list[str]:
                     continue
                 setattr(n, attr, mapping.get(cur, cur))
         ast.fix_missing_locations(nf)
-        fn.body = nf.body
-        fn.args = nf.args
-        fn.decorator_list = nf.decorator_list
-        fn.returns = nf.returns
+        # keep the function's own docstring, annotations and decorators; take body and parameter names of the restored form
+        doc = [fn.body[0]] if fn.body and isinstance(fn.body[0], ast.Expr) and isinstance(fn.body[0].value, ast.Constant) and isinstance(fn.body[0].value.value, str) and len(fn.body) > 1 else []
+        fn.body = doc + nf.body
+        for old_a, new_a in zip(_all_args(fn.args), _all_args(nf.args)):
+            old_a.arg = new_a.arg
         done.append(q)
     for q, i, stmt in list(module_units(tree)):
         b = base.get(f"{rel}::{q}")
